@@ -1,5 +1,5 @@
 // Harnesses over segments lifted from src/dev/discard.rs; child of `crate::dev`.
-// @module-needs env header seg:D0 seg:D1
+// @module-needs env header seg:D0 seg:D1 seg:DF
 #![allow(dead_code, unused_imports)]
 use super::*;
 use crate::dev::verif_env::*;
@@ -138,6 +138,56 @@ fn c11_discard_one_cluster() {
         kani::cover!(d.kind == spec::Kind::Zero, "zero cluster with preallocation");
     }
     drop(tbl);
+    core::mem::forget(r);
+    core::mem::forget(env);
+}
+
+// @harness c11_discard_loop
+// @props C11 C13
+// @tier quick
+// @cost 60
+// @timeout 900
+// @needs DF
+// @desc the whole body of discard() with the per-cluster step shimmed: the step is invoked exactly once for every whole cluster inside [offset, min(offset+len, vsize)), in ascending order, with cluster-aligned guest offsets, and for nothing else (partially covered head / tail clusters and everything outside the range are never touched); Ok on a writable device, Err and no step on a read-only one
+// @bounds offset, len: all u64 such that at most 5 whole clusters are covered; virtual size <= 2^63; full symbolic geometry; read-only flag symbolic
+// @funcs Qcow2Dev::discard (whole body)
+// @stub alloc::fmt::format -> String::new()
+// @assume virtual size <= 2^63
+#[kani::proof]
+#[kani::unwind(8)]
+#[kani::stub(std::fmt::format, fmt_stub2)]
+fn c11_discard_loop() {
+    let g = any_geo();
+    let vsize: u64 = kani::any();
+    kani::assume(vsize <= 1u64 << 63);
+    let ro: bool = kani::any();
+    let env = KEnv::new(info_of(&g, vsize, ro, false, false));
+    let offset: u64 = kani::any();
+    let len: u64 = kani::any();
+    let cs = 1u64 << g.cb;
+    let end = core::cmp::min(offset.saturating_add(len), vsize);
+    let first = (offset >> g.cb) + (offset & (cs - 1) != 0) as u64;
+    let last_excl = end >> g.cb;
+    let n = if offset < end && first < last_excl { last_excl - first } else { 0 };
+    kani::assume(n <= 5);
+    let r = env.seg_df(offset, len);
+    if ro {
+        assert!(r.is_err() && env.nrec.get() == 0);
+    } else {
+        assert!(r.is_ok());
+        assert!(env.nrec.get() as u64 == n);
+        let mut k = 0;
+        while k < 5 {
+            if (k as u64) < n {
+                let e = env.get_rec(k);
+                assert!(e.kind == K_DISCARD1 && e.off == (first + k as u64) << g.cb);
+            }
+            k += 1;
+        }
+        kani::cover!(n == 5);
+        kani::cover!(n == 0 && len > cs);
+    }
+    kani::cover!(ro);
     core::mem::forget(r);
     core::mem::forget(env);
 }
